@@ -141,6 +141,8 @@ FUNCTIONS = [
     ('BitTwiddle.cpp', 'IsPowerOf2', 1, []),
     ('BitTwiddle.cpp', 'Log2OfPowerOf2', 1, []),
     ('Archive/HuffLZ.cpp', 'GetOffsetModifiers', 1, []),
+    ('Map/MapHeader.h', 'WidthInTiles', 0, ['self_lgWidthInTiles']),
+    ('Map/MapHeader.h', 'TileCount', 0, ['self_heightInTiles', 'self_lgWidthInTiles']),
 ]
 
 def generate(repo):
